@@ -68,6 +68,8 @@ def base_args(ep, ctx):
              cl_key='l_k', cr_key='r_k', profile_attrs=['k', 's'])
     if ep == 'matcher':
         a['threshold'] = 0.5
+    if ctx.get('empty_candset'):
+        a['candset'] = a['candset'].iloc[0:0]
     return a
 
 
@@ -100,7 +102,8 @@ def invoke(ep, a):
                                 a['r_key'], a['l_attr'], a['r_attr'], 2, False)
     if ep == 'matcher':
         return ssj.apply_matcher(a['candset'], a['cl_key'], a['cr_key'], a['ltable'], a['rtable'], a['l_key'],
-                                 a['r_key'], a['l_attr'], a['r_attr'], a['tokenizer'], Jaccard().get_raw_score,
+                                 a['r_key'], a['l_attr'], a['r_attr'], a['tokenizer'],
+                                 a.get('sim_function') or Jaccard().get_raw_score,
                                  a['threshold'], a['comp_op'], True, a['l_out'], a['r_out'], 'l_', 'r_', True, 2,
                                  False)
     if ep == 'profile':
@@ -287,6 +290,12 @@ def w_valid(job):
                                  candset=pd.DataFrame({'_id': list(range(len(cs))),
                                                        'l_k': pd.Series([c[0] for c in cs], dtype='int64'),
                                                        'r_k': pd.Series([c[1] for c in cs], dtype=object)}))
+                        if ep == 'matcher' and not set_mode:
+                            # apply_matcher directly on the raw values: tokenizer=None is a documented choice
+                            a['tokenizer'] = None
+                            a['threshold'] = 2
+                            a['comp_op'] = '<='
+                            a['sim_function'] = Levenshtein().get_raw_score
                         cases += 1
                         try:
                             out = invoke(ep, a)
@@ -315,6 +324,9 @@ def layers(tier):
     ctxs = [{'set_mode': s, 'missing': m} for s in (True, False) for m in (False, True)]
     ctxs_str = [{'set_mode': False, 'missing': True, 'strdtype': True}]
     jobs = [{'ep': ep, 'contexts': ctxs + ctxs_str} for ep in EPS]
+    jobs += [{'ep': ep, 'contexts': [{'set_mode': True, 'missing': False, 'empty_candset': True},
+                                     {'set_mode': False, 'missing': True, 'empty_candset': True}]}
+             for ep in CANDSETS + ['matcher']]
     Ls = [Layer('single-invalid', 'checks.c15:w_invalid', jobs,
                 '%d entry points (6 joins, filter constructors + filter_tables of the 5 filters, filter_candset, '
                 'apply_matcher, profile) x every invalid-argument kind (non-DataFrame tables/candset, non-Tokenizer, '
